@@ -154,10 +154,46 @@ func shortFuncName(fn *ssa.Function) string {
 
 // Verify translates one function under contract and returns its translator with all obligations.
 func (e *Engine) Verify(fn *ssa.Function, c *Contract) *Tr {
+	// Heaps are discovered during translation; a havoc must cover heaps that are first read after it. Translate
+	// until the set of heap names is stable (normally two passes) with all names declared up front.
+	pre := map[string]string{}
+	var tr *Tr
+	for pass := 0; pass < 5; pass++ {
+		tr = e.verifyPass(fn, c, pre)
+		grown := false
+		for k, s := range tr.sorts {
+			if _, ok := pre[k]; !ok {
+				pre[k] = s
+				grown = true
+			}
+		}
+		if !grown {
+			break
+		}
+	}
+	return tr
+}
+
+func (e *Engine) verifyPass(fn *ssa.Function, c *Contract, pre map[string]string) *Tr {
 	tr := &Tr{
 		eng: e, top: fn, topShort: shortFuncName(fn), contract: c,
 		declared: map[string]bool{}, sorts: map[string]string{}, obls: map[string]*Obl{},
 		init: &State{H: map[string]string{}}, used: map[string]bool{}, uninterp: map[string]bool{},
+	}
+	tr.privPkg = pkgOfFn(fn)
+	{
+		var ks []string
+		for k := range pre {
+			ks = append(ks, k)
+		}
+		sort.Strings(ks)
+		for _, k := range ks {
+			if isFlagName(k) {
+				continue
+			}
+			tr.sorts[k] = pre[k]
+			tr.init.H[k] = tr.declare(k+"@0", pre[k])
+		}
 	}
 	f := tr.newFrame(fn, nil)
 	f.contract = c
@@ -193,6 +229,7 @@ func (e *Engine) Verify(fn *ssa.Function, c *Contract) *Tr {
 	for i, fv := range fn.FreeVars {
 		f.params[fv.Name()] = binds[i]
 	}
+	tr.topFrame, tr.topArgs, tr.topBinds = f, args, binds
 	env := f.contractEnvTop(c, args, binds, nil)
 	for _, cl := range c.Requires {
 		t, err := env.boolExpr(cl.E)
@@ -230,13 +267,30 @@ func (e *Engine) Verify(fn *ssa.Function, c *Contract) *Tr {
 				lbl = fmt.Sprintf("post%d", i+1)
 			}
 			f.cur = r.pp
-			f.addSite(cl.Prop, lbl, "postcondition", cl.Src, r.sig, sAnd(r.pp.R, sNot(t)))
+			cjs := env.conjuncts(cl.E)
+			if len(cjs) <= 1 {
+				f.addSite(cl.Prop, lbl, "postcondition", cl.Src, r.sig, sAnd(r.pp.R, sNot(t)))
+			} else {
+				for _, cj := range cjs {
+					ct, err := env.boolExpr(cj)
+					if err != nil {
+						continue
+					}
+					f.addSiteW(cl.Prop, lbl, "postcondition", cl.Src, r.sig+" :: "+cj.String(), sAnd(r.pp.R, sNot(ct)), cj.String())
+				}
+			}
 		}
 	}
 	// ghost frame: ghost state not listed in `modifies` is unchanged at every return
 	tr.ghostFrames(f, c, args, binds, rets)
 	// vacuity: some return must be reachable under the preconditions
-	tr.covers = append(tr.covers, &Site{Sig: "some return reachable", Goal: sOr(retRs...), Expect: "sat"})
+	sort.Slice(retRs, func(i, j int) bool { return len(tr.script(retRs[i], false)) < len(tr.script(retRs[j], false)) })
+	for i, r := range retRs {
+		if i >= 4 {
+			break
+		}
+		tr.covers = append(tr.covers, &Site{Sig: "some return reachable", Goal: r, Expect: "sat"})
+	}
 	return tr
 }
 
@@ -278,7 +332,7 @@ func (f *Frame) contractEnvTop(c *Contract, args, binds, results []Val) *Env {
 		env.vars[fn.Params[i].Name()] = a
 	}
 	for i, b := range binds {
-		env.vars[fn.FreeVars[i].Name()] = b
+		bindFreeVar(f.tr, env, fn.FreeVars[i], b)
 	}
 	sig := fn.Signature
 	_, rn := sigNames(sig, false)
@@ -305,8 +359,15 @@ func (f *Frame) contractEnvTop(c *Contract, args, binds, results []Val) *Env {
 // functionsFor lists the in-module functions whose contract mentions property prop.
 func (e *Engine) functionsFor(prop string) ([]*ssa.Function, []*Contract, []string) {
 	var keys []string
+	ownsGhost := false
+	for _, g := range e.db.Ghosts {
+		if g.Prop == prop {
+			ownsGhost = true
+		}
+	}
 	for k, c := range e.db.Contracts {
-		if c.Kind == "func" && (prop == "" || c.Props[prop]) {
+		// a property that owns ghost state also checks the ghost frame of every function under contract
+		if c.Kind == "func" && (prop == "" || c.Props[prop] || ownsGhost) {
 			keys = append(keys, k)
 		}
 	}
@@ -405,7 +466,7 @@ func (tr *Tr) ghostFrames(f *Frame, c *Contract, args, binds []Val, rets []retRe
 	}
 	for _, gn := range e.db.GhostOrder {
 		g := e.db.Ghosts[gn]
-		if whole[gn] || g.Prop == "" || !c.Props[g.Prop] {
+		if whole[gn] || g.Prop == "" {
 			continue
 		}
 		srt := ghostSort(g.Sort)
@@ -437,4 +498,16 @@ func (tr *Tr) ghostFrames(f *Frame, c *Contract, args, binds []Val, rets []retRe
 			f.addSite(g.Prop, "frame."+gn, "frame", "ghost "+gn+" unchanged except where `modifies` says", r.sig, sAnd(r.pp.R, sNot(sEq(fin, allowed))))
 		}
 	}
+}
+
+// bindFreeVar: a free variable is the address of the captured variable; contracts refer to the variable itself.
+func bindFreeVar(tr *Tr, env *Env, fv *ssa.FreeVar, cell Val) {
+	env.vars["addr_"+fv.Name()] = cell
+	if pt := pointee(fv.Type()); pt != nil && cell.K == VRef {
+		if _, isArr := pt.Underlying().(*types.Array); !isArr {
+			env.vars[fv.Name()] = tr.load(env.cur, pt, cell.T)
+			return
+		}
+	}
+	env.vars[fv.Name()] = cell
 }
